@@ -316,6 +316,9 @@ structure Request where
   varsOk : Bool
   /-- the selected operation is a subscription: `execute` raises InvalidOperationError -/
   subscriptionOp : Bool
+  /-- collecting the ROOT selection set fails (a `@skip` / `@include` condition that cannot be
+      evaluated): `execute` ends the execution stage and answers data null + one error -/
+  rootCollectFails : Bool
   /-- mutation: root fields run serially -/
   serial : Bool
   /-- `executor_cls=BlockingExecutor` -/
@@ -338,7 +341,10 @@ def execute (cfg : Cfg) (r : Request) : Option (List Ev) :=
   if !r.opselOk then none            -- get_operation_with_type raises InvalidOperationError
   else if !r.varsOk then none        -- coerce_variable_values raises VariablesCoercionError
   else if r.subscriptionOp then none -- "`execute` does not support subscriptions": InvalidOperationError (an ExecutionError)
+  else if r.rootCollectFails then
+    some (stageStart .execution ++ stageEnd .execution)                -- except ResolverError: on_execution_end(); data=None
   else some (stageStart .execution ++ execBody cfg r ++ stageEnd .execution)     -- _on_finish: on_execution_end
+  -- (a root selection set that collects to NOTHING — every field skipped — is `execBody` of an empty field list)
 
 /-- `process_graphql_query`. `abortInsideExcept = true` is the tree before the proposed fix of
     defect N1 (`return _abort(...)` inside `except`, i.e. before the `finally`). -/
